@@ -110,6 +110,9 @@ Theorem model_pins_current :
    ("servermap_unrecoverable_versions", "e842ac165b6a52f6")%string;
    ("servermap_best_recoverable_version", "d17e5392f2d1ae9d")%string;
    ("servermap_unrecoverable_newer_versions", "86adec526abef15e")%string;
-   ("servermap_check_for_done", "74ad7670791d4051")%string].
+   ("servermap_check_for_done", "74ad7670791d4051")%string;
+   ("servermap_got_results", "60636861fd94f8ae")%string;
+   ("publish_publish", "0a32e3c41d355f9a")%string;
+   ("publish_update", "b510a9f0c086f050")%string].
 Proof. reflexivity. Qed.
 Print Assumptions model_pins_current.
